@@ -146,6 +146,10 @@ type Op struct {
 	Nested   *Op        `json:"nested,omitempty"` // a read issued from inside the visitor callback
 	G        int        `json:"g,omitempty"`
 	NoCount  bool       `json:"nocount,omitempty"`
+	Groups   [][]Op     `json:"groups,omitempty"`
+	Schedule []int      `json:"schedule,omitempty"`
+	Bufs     []int      `json:"bufs,omitempty"`
+	Watchdog int        `json:"watchdog_ms,omitempty"`
 	NoStats  bool       `json:"nostats,omitempty"`
 }
 
@@ -191,6 +195,9 @@ type Env struct {
 	batchBase int
 	lastPl, lastIt int
 	dvrSeg    map[int]int
+	sched     *scheduler
+	gateArmed bool
+	sawBlocked *bool
 	docnums   map[int][][]int
 	sink     func(M) // when set, events go here instead of the trace (digests)
 }
@@ -201,11 +208,14 @@ func NewEnv(tr *Trace, sc *Scenario, workdir string) *Env {
 		segs:  map[int]*segH{}, files: map[int][]byte{},
 		pls:   map[int]segment.PostingsList{}, its: map[int]segment.PostingsIterator{},
 		dvrs:  map[int]segment.DocumentValueReader{}, bms: map[int]*roaring.Bitmap{},
-		objIDs: map[interface{}]int{}, nextObj: 1000,
-		watchdog: 20 * time.Second, cov: map[string]int{}, itFlags: map[int]itFlags{}, docnums: map[int][][]int{}, dvrSeg: map[int]int{}}
+		objIDs: map[interface{}]int{}, nextObj: 1000000,
+		watchdog: 20 * time.Second, cov: map[string]int{}, itFlags: map[int]itFlags{}, docnums: map[int][][]int{}, dvrSeg: map[int]int{}, sawBlocked: new(bool)}
 }
 
 func (e *Env) Close() {
+	if e.gateArmed {
+		ice.VerifSetGate(nil)
+	}
 	for _, h := range e.segs {
 		if h.file != nil {
 			h.file.Close()
@@ -226,6 +236,9 @@ func (e *Env) call(fn func()) string {
 	case r := <-done:
 		return r
 	case <-time.After(e.watchdog):
+		if e.sawBlocked != nil {
+			*e.sawBlocked = true
+		}
 		return "blocked"
 	}
 }
@@ -317,6 +330,11 @@ func (e *Env) dropEv(d *DropSpec) M {
 
 func (e *Env) Run(ops []Op) {
 	for i := range ops {
+		if e.sawBlocked != nil && *e.sawBlocked {
+			// a call never returned (already recorded); what follows would only pile up timeouts
+			e.emit(M{"ev": "skip", "op": ops[i].Op})
+			continue
+		}
 		e.Do(&ops[i])
 	}
 }
@@ -324,6 +342,8 @@ func (e *Env) Run(ops []Op) {
 // missing reports whether op refers to a handle that does not exist because the call
 // that should have produced it failed; such operations are skipped (logged as "skip").
 func (e *Env) missing(op *Op) bool {
+	segMu.RLock()
+	defer segMu.RUnlock()
 	needSeg := map[string]bool{"persist": true, "close_file": true, "fields": true, "dict": true, "contains": true,
 		"pl_open": true, "stored": true, "dv_open": true, "match": true, "stats": true, "stats_merge": true,
 		"observe": true, "layout": false}
@@ -400,6 +420,17 @@ func (e *Env) Do(op *Op) {
 		e.doMergeTranslated(op)
 	case "same_obs":
 		e.doSameObs(op)
+	case "par":
+		e.doPar(op)
+	case "sched":
+		e.doSched(op)
+	case "arm_gate_close":
+		e.doArmGateClose(op)
+	case "wfaults":
+		e.doWFaults(op)
+	case "watchdog":
+		e.watchdog = time.Duration(op.Watchdog) * time.Millisecond
+		e.emit(M{"ev": "skip", "op": "watchdog"})
 	case "it_count":
 		e.doItCount(op)
 	case "stored":
@@ -440,7 +471,9 @@ func bmDigest(bm *roaring.Bitmap) string {
 }
 
 func (e *Env) seg(h int) *segH {
+	segMu.RLock()
 	s := e.segs[h]
+	segMu.RUnlock()
 	if s == nil {
 		panic(fmt.Sprintf("scenario refers to unknown segment handle %d", h))
 	}
@@ -473,7 +506,9 @@ func (e *Env) doBuild(op *Op) {
 		mode = 1025
 	}
 	if res["kind"] == "ok" {
+		segMu.Lock()
 		e.segs[op.Seg] = &segH{seg: seg, impl: impl, dicts: map[string]segment.Dictionary{}}
+		segMu.Unlock()
 		res["count"] = clampInt(seg.Count())
 		res["size"] = clampInt(size)
 		var buf bytes.Buffer
@@ -529,7 +564,9 @@ func (e *Env) doMerge(op *Op) {
 	}
 	if res["kind"] == "ok" {
 		data := append([]byte{}, buf.Bytes()...)
+		segMu.Lock()
 		e.files[op.File] = data
+		segMu.Unlock()
 		res["n"] = clampSigned(int(n))
 		res["delivered"] = len(data)
 		res["digest"] = digest(data)
@@ -585,7 +622,9 @@ func (e *Env) doPersist(op *Op) {
 	res := resKind(class, err)
 	if res["kind"] == "ok" {
 		data := append([]byte{}, buf.Bytes()...)
+		segMu.Lock()
 		e.files[op.File] = data
+		segMu.Unlock()
 		res["n"] = clampSigned(int(n))
 		res["delivered"] = len(data)
 		res["digest"] = digest(data)
@@ -599,7 +638,9 @@ func (e *Env) doPersist(op *Op) {
 
 func (e *Env) doLoad(op *Op) {
 	impl := implByName(op.Impl)
+	segMu.RLock()
 	data, ok := e.files[op.File]
+	segMu.RUnlock()
 	if !ok {
 		// the producing call failed; nothing to load
 		e.emit(M{"ev": "load", "file": op.File, "seg": op.Seg, "backing": op.Backing, "impl": impl.Name,
@@ -631,7 +672,9 @@ func (e *Env) doLoad(op *Op) {
 	res := resKind(class, err)
 	if res["kind"] == "ok" {
 		h.seg = seg
+		segMu.Lock()
 		e.segs[op.Seg] = h
+		segMu.Unlock()
 		res["count"] = clampInt(seg.Count())
 		if crc, nd, cm, ver, ok := impl.Footer(seg); ok {
 			res["seg"] = M{"crc": fmt.Sprintf("%08x", crc), "numDocs": clampInt(nd), "chunkMode": int(cm), "version": int(ver)}
@@ -968,6 +1011,7 @@ func (e *Env) doStored(op *Op) {
 	var nestedDone bool
 	class := e.call(func() {
 		err = h.seg.VisitStoredFields(uint64(op.N), func(field string, value []byte) bool {
+			e.cbGate()
 			if op.Nested != nil && !nestedDone {
 				// re-entrancy: a read from inside the callback, before the value is copied
 				nestedDone = true
@@ -1025,6 +1069,7 @@ func (e *Env) doDvVisit(op *Op) {
 	var err error
 	class := e.call(func() {
 		err = r.VisitDocumentValues(uint64(op.N), func(field string, term []byte) {
+			e.cbGate()
 			vals = append(vals, M{"field": field, "term": B(term)})
 		})
 	})
@@ -1115,7 +1160,7 @@ func (e *Env) segDigest(h *segH, withBytes bool) string {
 	sub := &Env{tr: nil, sc: e.sc, norm: e.norm, segs: map[int]*segH{1: h}, files: map[int][]byte{},
 		pls: map[int]segment.PostingsList{}, its: map[int]segment.PostingsIterator{},
 		dvrs: map[int]segment.DocumentValueReader{}, bms: map[int]*roaring.Bitmap{},
-		objIDs: map[interface{}]int{}, nextObj: 1000, watchdog: e.watchdog, inline: true, cov: map[string]int{},
+		objIDs: map[interface{}]int{}, nextObj: 1000000, watchdog: e.watchdog, inline: true, cov: map[string]int{},
 		itFlags: map[int]itFlags{}, docnums: map[int][][]int{}, dvrSeg: map[int]int{}}
 	hs := sha256.New()
 	sub.sink = func(ev M) {
@@ -1336,11 +1381,11 @@ func (e *Env) drain(seg int, field string, term []byte, except *DropSpec, freq, 
 // forget drops harness bookkeeping for temporary objects (the objects stay valid).
 func (e *Env) forget(plID, itID int) {
 	e.emit(M{"ev": "forget", "pl": plID, "it": itID})
-	if pl, ok := e.pls[plID]; ok && plID >= 1000 {
+	if pl, ok := e.pls[plID]; ok && plID >= 1000000 {
 		delete(e.pls, plID)
 		delete(e.objIDs, pl)
 	}
-	if it, ok := e.its[itID]; ok && itID >= 1000 {
+	if it, ok := e.its[itID]; ok && itID >= 1000000 {
 		delete(e.its, itID)
 		delete(e.itFlags, itID)
 		delete(e.objIDs, it)
